@@ -606,14 +606,14 @@ Section Replace.
     apply apply_macro_P; assumption.
   Qed.
 
-  Lemma replace_rounds_P (ms : list macro) (orig : string) :
-    macros_ok ms -> forall n res, P res = true -> P (replace_rounds n ms orig res) = true.
+  Lemma replace_rounds_P (ms : list macro) :
+    macros_ok ms -> forall n orig res, P res = true -> P (replace_rounds n ms orig res) = true.
   Proof.
-    intros Hms. induction n; intros res Hres; cbn [replace_rounds]; [exact Hres|].
+    intros Hms. induction n as [|n IHn]; intros orig res Hres; cbn [replace_rounds]; [exact Hres|].
     destruct (apply_all ms orig res false) as [res' c] eqn:E.
     assert (Hres' : P res' = true).
     { change res' with (fst (res', c)). rewrite <- E. apply apply_all_P; assumption. }
-    destruct c; auto.
+    destruct c; [apply IHn; exact Hres' | exact Hres'].
   Qed.
 
   Lemma replace_all_P (ms : list macro) (s : string) :
